@@ -155,6 +155,8 @@ pub mod fexpr {
     pub fn build_global(t: &str) -> BoxS {
         let b = t.as_bytes();
         match b[0] {
+            // an absent layer (`Option::None`): no opinion on anything
+            b'N' => Box::new(None::<BoxS>),
             b'L' => Box::new(lf(t[1..].parse().unwrap())),
             b'T' => Box::new(crate::unhex_str(&t[1..]).parse::<Targets>().expect("targets")),
             b'E' => Box::new(EnvFilter::builder().parse(crate::unhex_str(&t[1..])).expect("env")),
